@@ -178,6 +178,7 @@ def explore_job(job):
         return {"job": job, "ok": True, "paths": paths, "unexplored": eng.unexplored,
                 "queries": st.queries, "solver_s": st.solver_s, "unknown": st.unknown,
                 "by_kind": st.by_kind, "wall_s": time.time() - t0,
+                "defined_checked": st.defined_checked, "defined_discharged": st.defined_discharged,
                 "describe": sc.describe()}
     except BaseException as e:  # harness / engine error
         return {"job": job, "ok": False, "error": "%s: %s" % (type(e).__name__, e),
@@ -213,7 +214,7 @@ def replay_once(req):
         res["expected_exception"] = type(e).__name__ in sc.expected_exceptions
         return res
     flat = hz.flatten(sc.observable(outputs))
-    res["outputs"] = [None if x is None else (x if isinstance(x, (bool, int)) else float(x).hex()) for x in flat]
+    res["outputs"] = [None if x is None else (x if isinstance(x, (bool, int, str)) else float(x).hex()) for x in flat]
     res["nonfinite"] = not _finite(flat)
     ob = hz.Obligations(None)
     try:
